@@ -543,6 +543,8 @@ def _len_model(an, f, st, t, c, argiv):
         cur = _owner_len(an, st, owner0, core.op_place(args[0])["ty"]) if owner0 is not None else L0
         n = cap0
         an.incr[(f.path, _bb_of(f, t))] = max(an.incr.get((f.path, _bb_of(f, t)), 0), 1)
+        if an._recording:
+            an.note_obs("grow", f, t, (cur, (1, 1)))
         if cur is not None and n is not None:
             proved = cur[1] < n
             return {}, (proved, "capacity", "len=%s capacity=%d" % (cur, n)), [((owner0[0], owner0[1]), (min(cur[0] + 1, n), min(cur[1] + 1, n)))] if owner0 is not None else None
@@ -555,6 +557,8 @@ def _len_model(an, f, st, t, c, argiv):
             an.incr[(f.path, _bb_of(f, t))] = max(an.incr.get((f.path, _bb_of(f, t)), 0), add[1])
         else:
             an.incr[(f.path, _bb_of(f, t))] = SLICE_LEN_MAX
+        if an._recording:
+            an.note_obs("grow", f, t, (cur, add))
         if cur is not None and add is not None and n is not None:
             proved = cur[1] + add[1] <= n
             return {}, (proved, "capacity", "len=%s + %s capacity=%d" % (cur, add, n)), [((owner0[0], owner0[1]), (min(cur[0] + add[0], n), min(cur[1] + add[1], n)))] if owner0 is not None else None
@@ -625,6 +629,8 @@ def _len_model(an, f, st, t, c, argiv):
         if rb is None:
             return None, None, []
         kind, s_, e = rb
+        if an._recording:
+            an.note_obs("range", f, t, (kind, s_, e, base))
         if kind == "full":
             return {("#len",): base}, (True, "index", "full range"), []
         if kind == "to":
